@@ -376,6 +376,50 @@ func VerifC06_Hearsay() {
 	verifReach("end")
 }
 
+// A response that comes too late: the node's query to dst has ended without an answer - timed out,
+// cancelled by its caller, or never written because the socket refused it - and then a response with
+// that query's transaction ID arrives from dst. It answers no outstanding query: its sender does not
+// enter the table.
+func VerifC06_LateResponse() {
+	verifLimiterAlwaysGrants()
+	v := verifStartServer(verifSrvOpt{noSecurity: true})
+	dst := verifC07Addrs[0]
+	ctx, cancel := context.WithCancel(context.Background())
+	defer cancel()
+	how := verifChoice(0, 2)
+	if how == 2 {
+		v.sock.failAll = true
+	}
+	p := verifStartQuery(v, ctx, dst, "ping", QueryInput{NumTries: verifChoice(1, 2)})
+	switch how {
+	case 0:
+		for i := 0; i < 4 && !p.done; i++ {
+			verifFireTimers()
+			verifQuiesce()
+		}
+		verifReach("timeout")
+	case 1:
+		cancel()
+		verifQuiesce()
+		verifReach("cancelled")
+	case 2:
+		for i := 0; i < 4 && !p.done; i++ {
+			verifFireTimers()
+			verifQuiesce()
+		}
+		verifReach("unsent")
+	}
+	if !p.done || p.res.Err == nil || len(v.sock.triedT) == 0 {
+		return
+	}
+	v.sock.failAll = false
+	tid := v.sock.triedT[0]
+	m := krpc.Msg{Y: "r", T: tid, R: &krpc.Return{ID: verifIDInBucket(v.id, 3)}}
+	v.sock.deliver(verifEncode(m, 50), dst)
+	verifAssert(v.s.NumNodes() == 0, "C06: a response arriving after its query has ended (time-out, cancellation, failed send) is unsolicited: its sender does not enter the table")
+	verifReach("end")
+}
+
 func VerifC06_MustFail() {
 	verifLimiterAlwaysGrants()
 	v := verifStartServer(verifSrvOpt{noSecurity: true})
